@@ -89,7 +89,7 @@ macro "close_safe_gen" h3:ident ht:ident : tactic =>
 theorem trace_tempRename_safe_gen (fs0 : FS) (o n : Bytes) (hq : Quiescent fs0 o) (fault : Fault) :
     ∀ fs ∈ trace n fault progTempRename 0 (startRun fs0), Safe o n fs := by
   obtain ⟨t, h1, h2, h3⟩ := hq
-  obtain ⟨L, tg, th, tm, nx⟩ := fs0
+  obtain ⟨L, tg, th, tm, lk, ds⟩ := fs0
   simp only at h1 h2 h3
   subst h1 h2
   have ht : t < L.length := lt_of_getElem?_some h3
@@ -118,7 +118,7 @@ with any single failing call) the store path shows `o` or `n` -/
 theorem kill_tempRename_gen (fs0 : FS) (o n : Bytes) (hq : KQ fs0 o) (fault : Fault) :
     ∀ fs ∈ trace n fault progTempRename 0 (startRun fs0), afterKill fs = some o ∨ afterKill fs = some n := by
   obtain ⟨t, c, h1, h3⟩ := kq_elim hq
-  obtain ⟨L, tg, th, tm, nx⟩ := fs0
+  obtain ⟨L, tg, th, tm, lk, ds⟩ := fs0
   simp only at h1 h3
   subst h1
   have ht : t < L.length := lt_of_getElem?_some h3
@@ -142,7 +142,7 @@ theorem final_tempRename_gen (fs0 : FS) (o n : Bytes) (hq : KQ fs0 o) (fault : F
     let r := finalRun n fault none progTempRename 0 (startRun fs0)
     (r.err = false → KQ r.fs n) ∧ (r.err = true → KQ r.fs o) := by
   obtain ⟨t, c, h1, h3⟩ := kq_elim hq
-  obtain ⟨L, tg, th, tm, nx⟩ := fs0
+  obtain ⟨L, tg, th, tm, lk, ds⟩ := fs0
   simp only at h1 h3
   subst h1
   have ht : t < L.length := lt_of_getElem?_some h3
@@ -157,46 +157,124 @@ theorem final_tempRename_gen (fs0 : FS) (o n : Bytes) (hq : KQ fs0 o) (fault : F
     | j + 10 =>
       simp [finalRun, progTempRename, enabled, faultAt, execOp, execOk, writeBytes, upd_append_length, startRun, KQ, afterKill]
 
-/-! ### histories of saves -/
+/-! ### every state a run can stop in is a state of the trace -/
 
-/-- a history: each save has its document and possibly one failing call; every run goes to its end -/
-def runSaves (prog : List Stmt) : FS → List (Bytes × Fault) → FS
-  | fs, [] => fs
-  | fs, (d, f) :: rest => runSaves prog (finalRun d f none prog 0 (startRun fs)).fs rest
-
-/-- the document of the last save of the history that reported success (`d0` if none did) -/
-def lastSaved (prog : List Stmt) : FS → Bytes → List (Bytes × Fault) → Bytes
-  | _, d, [] => d
-  | fs, d, (n, f) :: rest =>
-    let r := finalRun n f none prog 0 (startRun fs)
-    lastSaved prog r.fs (if r.err then d else n) rest
-
-theorem history_kq (fs0 : FS) (d0 : Bytes) (hist : List (Bytes × Fault)) (h : KQ fs0 d0) :
-    KQ (runSaves progTempRename fs0 hist) (lastSaved progTempRename fs0 d0 hist) := by
-  induction hist generalizing fs0 d0 with
-  | nil => exact h
-  | cons p rest ih =>
-    obtain ⟨n, f⟩ := p
-    simp only [runSaves, lastSaved]
-    have hf := final_tempRename_gen fs0 d0 n h f
-    apply ih
-    cases he : (finalRun n f none progTempRename 0 (startRun fs0)).err with
-    | false => simpa using hf.1 he
-    | true => simpa using hf.2 he
-
-theorem lastSaved_mem (prog : List Stmt) (fs0 : FS) (d0 : Bytes) (hist : List (Bytes × Fault)) :
-    lastSaved prog fs0 d0 hist = d0 ∨ lastSaved prog fs0 d0 hist ∈ hist.map (·.1) := by
-  induction hist generalizing fs0 d0 with
-  | nil => exact Or.inl rfl
-  | cons p rest ih =>
-    obtain ⟨n, f⟩ := p
-    simp only [lastSaved, List.map_cons, List.mem_cons]
-    rcases ih (finalRun n f none prog 0 (startRun fs0)).fs
-        (if (finalRun n f none prog 0 (startRun fs0)).err = true then d0 else n) with h | h
-    · rw [h]
+theorem head_mem_trace (doc : Bytes) (fault : Fault) (prog : List Stmt) (i : Nat) (r : Run) :
+    r.fs ∈ trace doc fault prog i r := by
+  induction prog generalizing i r with
+  | nil => simp [trace]
+  | cons s rest ih =>
+    cases s with
+    | retIfErr =>
+      simp only [trace]
       split
-      · exact Or.inl rfl
-      · exact Or.inr (Or.inl rfl)
-    · exact Or.inr (Or.inr h)
+      · simp
+      · exact ih _ _
+    | op g rec o =>
+      simp only [trace]
+      split
+      · simp
+      · exact ih _ _
+
+/-- wherever a run ends — at its end, or killed right after statement `stop` — its file system is one of
+the instants of `trace` -/
+theorem finalRun_fs_mem_trace (doc : Bytes) (fault : Fault) (stop : Option Nat) (prog : List Stmt) (i : Nat) (r : Run) :
+    (finalRun doc fault stop prog i r).fs ∈ trace doc fault prog i r := by
+  induction prog generalizing i r with
+  | nil => simp [trace, finalRun]
+  | cons s rest ih =>
+    cases s with
+    | retIfErr =>
+      simp only [trace, finalRun]
+      split
+      · simp
+      · exact ih _ _
+    | op g rec o =>
+      simp only [trace, finalRun]
+      split
+      · split
+        · apply List.mem_cons_of_mem
+          apply List.mem_append_right
+          exact head_mem_trace _ _ _ _ _
+        · apply List.mem_cons_of_mem
+          apply List.mem_append_right
+          exact ih _ _
+      · exact ih _ _
+
+/-- after a run of the temp-file program that ended anywhere (end, error path, kill after any statement,
+one failing call) the store path shows the old or the new document -/
+theorem kq_after_run (fs0 : FS) (o n : Bytes) (hq : KQ fs0 o) (fault : Fault) (stop : Option Nat) :
+    KQ (finalRun n fault stop progTempRename 0 (startRun fs0)).fs o ∨
+    KQ (finalRun n fault stop progTempRename 0 (startRun fs0)).fs n :=
+  kill_tempRename_gen fs0 o n hq fault _ (finalRun_fs_mem_trace n fault stop progTempRename 0 (startRun fs0))
+
+/-- **no left-over can block a save**: from any directory (stale temporary files under any names, the fixed
+name `<store>.tmp` included, symlinked store or not) a save without a failing call reports success and the
+store path shows the new document -/
+theorem save_completes_gen (fs0 : FS) (o n : Bytes) (hq : KQ fs0 o) :
+    (finalRun n none none progTempRename 0 (startRun fs0)).err = false ∧
+    KQ (finalRun n none none progTempRename 0 (startRun fs0)).fs n := by
+  obtain ⟨t, c, h1, h3⟩ := kq_elim hq
+  obtain ⟨L, tg, th, tm, lk, ds⟩ := fs0
+  simp only at h1 h3
+  subst h1
+  simp [finalRun, progTempRename, enabled, faultAt, execOp, execOk, writeBytes, upd_append_length, startRun, KQ, afterKill]
+
+/-- what the temp-file program does to a **symlinked** store: the link is replaced by a regular file with
+the new document; the file the link pointed to keeps its inode and the OLD document -/
+theorem symlink_replaced (fs0 : FS) (o n : Bytes) (t : Nat) (c : Bool) (hl : fs0.isLink = true) (hd : fs0.dest = some t)
+    (ht : fs0.target = some t) (hi : fs0.inodes[t]? = some ⟨o, c⟩) :
+    let r := finalRun n none none progTempRename 0 (startRun fs0)
+    r.err = false ∧ r.fs.isLink = false ∧ afterKill r.fs = some n ∧
+    r.fs.dest = some t ∧ r.fs.inodes[t]? = some ⟨o, c⟩ := by
+  obtain ⟨L, tg, th, tm, lk, ds⟩ := fs0
+  simp only at hl hd ht hi
+  subst hl hd ht
+  have hlt : t < L.length := lt_of_getElem?_some hi
+  simp [finalRun, progTempRename, enabled, faultAt, execOp, execOk, writeBytes, upd_append_length, startRun, afterKill,
+    List.getElem?_append_left hlt, hi]
+
+/-! ### the fixed-name variant (`<store>.tmp`, O_EXCL) -/
+
+/-- one save killed inside its write leaves `<store>.tmp` behind; the next save — no fault at all — fails
+at the create (EEXIST) and the store keeps the old document -/
+theorem exclTmp_stuck_after_crash (o n n2 : Bytes) (k : Nat) :
+    let fs1 := (finalRun n (some (3, k)) (some 3) progExclTmp 0 (startRun (initFS o))).fs
+    let r2 := finalRun n2 none none progExclTmp 0 (startRun fs1)
+    afterKill fs1 = some o ∧ r2.err = true ∧ afterKill r2.fs = some o := by
+  simp [finalRun, progExclTmp, enabled, faultAt, execOp, execOk, execFail, writeBytes, upd, startRun, initFS, afterKill,
+    List.lookup]
+
+/-! ### histories of saves across restarts -/
+
+/-- one save of a history: its document, possibly one failing call, possibly a kill right after a statement
+(then the process restarts on whatever is left: `startRun` forgets descriptors and names) -/
+structure SaveEv where
+  doc : Bytes
+  fault : Fault
+  stop : Option Nat
+
+def runSaves (prog : List Stmt) : FS → List SaveEv → FS
+  | fs, [] => fs
+  | fs, e :: rest => runSaves prog (finalRun e.doc e.fault e.stop prog 0 (startRun fs)).fs rest
+
+/-- after any history the store path shows the start document or the document of one of the saves -/
+theorem history_kq (fs0 : FS) (d0 : Bytes) (hist : List SaveEv) (h : KQ fs0 d0) :
+    ∃ d, (d = d0 ∨ d ∈ hist.map (·.doc)) ∧ KQ (runSaves progTempRename fs0 hist) d := by
+  induction hist generalizing fs0 d0 with
+  | nil => exact ⟨d0, Or.inl rfl, h⟩
+  | cons e rest ih =>
+    simp only [runSaves]
+    rcases kq_after_run fs0 d0 e.doc h e.fault e.stop with h1 | h1
+    · obtain ⟨d, hd, hk⟩ := ih _ d0 h1
+      refine ⟨d, ?_, hk⟩
+      rcases hd with hd | hd
+      · exact Or.inl hd
+      · exact Or.inr (by simp [hd])
+    · obtain ⟨d, hd, hk⟩ := ih _ e.doc h1
+      refine ⟨d, ?_, hk⟩
+      rcases hd with hd | hd
+      · exact Or.inr (by simp [hd])
+      · exact Or.inr (by simp [hd])
 
 end SSV.Persist
